@@ -222,8 +222,8 @@ class Run:
         for f in r.get('fails', []):
             self.fails.append(dict(kind='engine', binary=binary, flavour=flavour, check=f['check'], case=f['case'], msg=f['msg'], key='%s/%s' % (f['check'], f['case'])))
 
-def run_engine(run, binary, exe, filters, flavour='n', scale=None, timeout=None, extra_env=None):
-    out = os.path.join(tree_dir(), 'result.%s.%s.%s.%d.json' % (run.prop, binary, flavour, os.getpid()))
+def run_engine(run, binary, exe, filters, flavour='n', scale=None, timeout=None, extra_env=None, tag=''):
+    out = os.path.join(tree_dir(), 'result.%s.%s.%s.%d%s.json' % (run.prop, binary, flavour, os.getpid(), tag))
     env = dict(os.environ, VERIF_SEED=str(SEED), VERIF_OUT=out)
     if scale is not None: env['VERIF_SCALE'] = str(scale)
     if flavour == 's':
